@@ -11,6 +11,10 @@ kinds
   addelse    if T: ...return/raise ; rest     ->   if T: ... else: rest     (last if of a block only)
   tempret    return <call/binop>      ->  _rv = <...>; return _rv
   augplain   x += <num>               ->  x = x + <num>   (Name targets, numeric constant)
+  plainaug   x = x + e                ->  x += e          (Name targets; e a constant or a name)
+  demorgan   not (a and b) -> not a or not b ;  a and b (in a test) -> not (not a or not b)
+  swapassign two adjacent assignments with call-free right-hand sides that do not mention each other's targets are swapped
+  alias      self.<attr>.<method>(...) as a statement  ->  _r = self.<attr>; _r.<method>(...)
   nop        a `pass` after every simple statement of a function body
   kwargs     positional arguments of calls to package methods with a unique signature -> keywords
 
@@ -24,7 +28,7 @@ from sa.loader import Repo, AnalysisError
 from sa.main import analyse, ALL
 from sa import report
 
-KINDS = ['swapif', 'cmpflip', 'nestand', 'dropelse', 'addelse', 'tempret', 'augplain', 'nop', 'kwargs']
+KINDS = ['swapif', 'cmpflip', 'nestand', 'dropelse', 'addelse', 'tempret', 'augplain', 'plainaug', 'nop', 'kwargs', 'demorgan', 'swapassign', 'alias']
 FLIP = {ast.Eq: ast.Eq, ast.NotEq: ast.NotEq, ast.Lt: ast.Gt, ast.Gt: ast.Lt, ast.LtE: ast.GtE, ast.GtE: ast.LtE}
 
 
@@ -115,6 +119,25 @@ class Rewriter:
                     and isinstance(s.value, ast.Constant) and isinstance(s.value.value, (int, float)) and self.site(s, fn):
                 s = ast.copy_location(ast.Assign(targets=[ast.Name(id=s.target.id, ctx=ast.Store())],
                                                  value=ast.BinOp(left=ast.Name(id=s.target.id, ctx=ast.Load()), op=s.op, right=s.value)), s)
+            elif k == 'plainaug' and isinstance(s, ast.Assign) and len(s.targets) == 1 and isinstance(s.targets[0], ast.Name) \
+                    and isinstance(s.value, ast.BinOp) and isinstance(s.value.op, (ast.Add, ast.Sub)) and isinstance(s.value.left, ast.Name) \
+                    and s.value.left.id == s.targets[0].id and isinstance(s.value.right, (ast.Constant, ast.Name)) and self.site(s, fn):
+                s = ast.copy_location(ast.AugAssign(target=ast.Name(id=s.targets[0].id, ctx=ast.Store()), op=s.value.op, value=s.value.right), s)
+            elif k == 'demorgan' and isinstance(s, (ast.If, ast.While)) and self.site(s, fn):
+                s.test = demorgan(s.test)
+            elif k == 'alias' and isinstance(s, (ast.Expr, ast.Assign)) and isinstance(s.value, ast.Call) and isinstance(s.value.func, ast.Attribute) \
+                    and isinstance(s.value.func.value, ast.Attribute) and isinstance(s.value.func.value.value, ast.Name) and s.value.func.value.value.id == 'self' \
+                    and self.site(s, fn):
+                rn = '_r%d' % self.n
+                out.append(ast.copy_location(ast.Assign(targets=[ast.Name(id=rn, ctx=ast.Store())], value=s.value.func.value), s))
+                s.value.func.value = ast.Name(id=rn, ctx=ast.Load())
+            elif k == 'swapassign' and isinstance(s, ast.Assign) and out and isinstance(out[-1], ast.Assign) and swappable(out[-1], s) \
+                    and id(out[-1]) not in self.__dict__.setdefault('swapped', set()) and self.site(s, fn):
+                prev = out.pop()
+                self.swapped.add(id(prev))
+                self.swapped.add(id(s))
+                out.append(s)
+                s = prev
             out.append(s)
             if k == 'nop' and isinstance(s, (ast.Assign, ast.AugAssign, ast.Expr)) and not (isinstance(s, ast.Expr) and isinstance(s.value, ast.Constant)) \
                     and self.site(s, fn):
@@ -181,6 +204,32 @@ class Rewriter:
                 kws = [ast.keyword(arg=sig[j], value=a) for j, a in enumerate(n.args)]
                 return ast.copy_location(ast.Call(func=n.func, args=[], keywords=kws + n.keywords), n)
         return T().visit(stmt)
+
+
+def demorgan(t):
+    if isinstance(t, ast.UnaryOp) and isinstance(t.op, ast.Not) and isinstance(t.operand, ast.BoolOp):
+        b = t.operand
+        return ast.copy_location(ast.BoolOp(op=ast.Or() if isinstance(b.op, ast.And) else ast.And(), values=[negate(v) for v in b.values]), t)
+    if isinstance(t, ast.BoolOp):
+        inner = ast.BoolOp(op=ast.Or() if isinstance(t.op, ast.And) else ast.And(), values=[negate(v) for v in t.values])
+        return ast.copy_location(ast.UnaryOp(op=ast.Not(), operand=inner), t)
+    return t
+
+
+def swappable(a, b):
+    def names(e, ctx):
+        return set(ast.unparse(n) for n in ast.walk(e) if isinstance(n, (ast.Name, ast.Attribute)) and isinstance(n.ctx, ctx))
+    for x in (a, b):
+        if not pure(x.value) or any(isinstance(t, (ast.Subscript, ast.Tuple, ast.List, ast.Starred)) for t in x.targets):
+            return False
+        if any(isinstance(n, ast.Subscript) for n in ast.walk(x.value)):
+            return False
+    ta, tb = set(ast.unparse(t) for t in a.targets), set(ast.unparse(t) for t in b.targets)
+    ra, rb = names(a.value, ast.Load), names(b.value, ast.Load)
+    # no target of one is read (or is a prefix of something read) by the other, and the targets differ
+    def touches(ts, rs):
+        return any(r == t or r.startswith(t + '.') or t.startswith(r + '.') for t in ts for r in rs)
+    return not (ta & tb) and not touches(ta, rb) and not touches(tb, ra) and not touches(ta, tb)
 
 
 def signatures(src):
